@@ -309,11 +309,12 @@ def _chr(i):
 
 def _minmax(is_max):
     def f(*args):
+        if len(args) >= 2 and all(isinstance(a, int) and not isinstance(a, RInt) for a in args):
+            # min(0, 4) written with literal constants only: folded with python semantics by the library's constant
+            # folder, the result is a plain constant again (min(x) over a list-constant VARIABLE is not folded)
+            return (max if is_max else min)(args)
         if len(args) == 1:
             args = tuple(args[0])
-        if all(isinstance(a, int) and not isinstance(a, RInt) for a in args):
-            # only compile-time constants: folded with python semantics, the result is a plain constant again
-            return (max if is_max else min)(args)
         vals = [RInt.of(a) if not isinstance(a, RFix) else a for a in args]
         if isinstance(vals[0], RFix):
             best = vals[0]
